@@ -217,6 +217,28 @@ fn decode_graph(t: &mut Tape) -> GraphCase {
         }
         return GraphCase { nodes, requests: vec![("a".into(), [0u8, 1, 2, 3][t.pick(4)])] };
     }
+    if t.chance(1, 30) {
+        // a wide page: one scriptlet pulls in 30-130 helpers, another scriptlet (usually from a list
+        // with fewer bits) shares one helper that leads to a permissioned resource
+        let w = 30 + t.pick(100);
+        let shared = t.pick(w);
+        let via = t.chance(1, 2);
+        let mut a_deps = vec![];
+        let mut nodes = vec![];
+        for i in 0..w {
+            a_deps.push(format!("w{}.fn", i));
+            let deps = if i == shared { vec![if via { "mid.fn".to_string() } else { "p.fn".to_string() }] } else { vec![] };
+            nodes.push(Node { name: format!("w{}.fn", i), kind: 1, perm: 0, deps });
+        }
+        nodes.push(Node { name: "mid.fn".into(), kind: 1, perm: 0, deps: vec!["p.fn".into()] });
+        nodes.push(Node { name: "p.fn".into(), kind: 1, perm: [2u8, 2, 1, 0][t.pick(4)], deps: vec![] });
+        nodes.push(Node { name: "a.js".into(), kind: 0, perm: 0, deps: a_deps });
+        nodes.push(Node { name: "b.js".into(), kind: 0, perm: 0, deps: vec![format!("w{}.fn", shared)] });
+        let pa = [3u8, 2, 0][t.pick(3)];
+        let pb = [0u8, 0, 1, 2][t.pick(4)];
+        let requests = if t.chance(1, 2) { vec![("a".to_string(), pa), ("b".to_string(), pb)] } else { vec![("b".to_string(), pb), ("a".to_string(), pa)] };
+        return GraphCase { nodes, requests };
+    }
     let n = 1 + t.pick(8);
     let mut nodes = vec![];
     for i in 0..n {
@@ -407,7 +429,7 @@ fn decode_args(t: &mut Tape) -> ArgCase {
 }
 
 pub fn check(ctx: &mut Ctx) {
-    ctx.rule = "perm: EXHAUSTIVE 256 x 256 (resource permission, list permission) pairs at engine level: a scriptlet is injected iff its bits are a subset of the list's, and a permissioned resource is never a redirect; graphs: 1-8 resources (function-style / fn / template, permissions on inner nodes, 0-3 dependencies each incl. cycles and missing names, duplicate names) and 1-3 requests from lists with different permissions: every resource body in the output must be justified by a request allowed to use it, and a scriptlet is invoked iff its whole dependency closure is permitted for the lists requesting it; args: 0-4 argument values built from quotes, backslashes, backticks, '$' sequences, braces, parentheses, control characters, U+2028/2029, non-ASCII, '</script>', comment markers, rendered bare / quoted with a quote character absent from the value / bare with '\\,' escapes; the emitted call's argument list must parse (as JSON string literals) back to exactly the values; identical exception removes the injection, a one-space-different one does not, a blanket exception removes all. Non-trivial: perm pair with neither side 0 or 255; graph with a permissioned or dependent node; argument needing escaping or removed by an exception.".into();
+    ctx.rule = "perm: EXHAUSTIVE 256 x 256 (resource permission, list permission) pairs at engine level: a scriptlet is injected iff its bits are a subset of the list's, and a permissioned resource is never a redirect; graphs: 1-8 resources (function-style / fn / template, permissions on inner nodes, 0-3 dependencies each incl. cycles and missing names, duplicate names; 1 case in 30 a dependency chain of 10-129 nodes, 1 in 30 a wide page where one scriptlet pulls in 30-129 helpers and a second scriptlet from another list shares one helper that leads to a permissioned resource) and 1-3 requests from lists with different permissions: every resource body in the output must be justified by a request allowed to use it, and a scriptlet is invoked iff its whole dependency closure is permitted for the lists requesting it; args: 0-4 argument values built from quotes, backslashes, backticks, '$' sequences, braces, parentheses, control characters, U+2028/2029, non-ASCII, '</script>', comment markers, rendered bare / quoted with a quote character absent from the value / bare with '\\,' escapes; the emitted call's argument list must parse (as JSON string literals) back to exactly the values; identical exception removes the injection, a one-space-different one does not, a blanket exception removes all. Non-trivial: perm pair with neither side 0 or 255; graph with a permissioned or dependent node; argument needing escaping or removed by an exception.".into();
     ctx.assumptions = vec![
         "argument values are rendered only in spellings whose meaning is documented and pinned by the library's own quoted_scriptlet_args test; values expressible in none are skipped and counted".into(),
         "rule lines cannot contain line breaks".into(),
